@@ -29,10 +29,10 @@ theorem C09_written_reads (s : Sources) : (if accWritten s ≠ "" then accWritte
   accWritten_then_default s
 
 /-- **every attribute read in the code base, partial**: each site uses a resolver that consults everything an author can write
-    (`full`: with the built-in default; `written`: the caller supplies the default) or is one of the four recorded raw reads
-    of an identifying attribute (`lang` of the root, `name` of a social element).  The kind of each accessor is read off its
+    (`full`: with the built-in default; `written`: the caller supplies the default) or is the one recorded raw read: `lang` of the
+    root element <mjml>, which is not a body component and which mj-attributes cannot address.  The kind of each accessor is read off its
     own body by the extractor; the table of reads is complete and regenerated; a new reduced read breaks this theorem. -/
-theorem C09_sites_partial :
+theorem C09_sites :
     ∀ s ∈ Gomjml.Gen.AttrSites.attrSites, s.2.2.1 = "full" ∨ s.2.2.1 = "written" ∨
       (s.1, s.2.2.1, s.2.2.2) ∈ Gomjml.Expect.AttrSites.knownNonFull := by
   decide +kernel
